@@ -1,12 +1,18 @@
 #!/usr/bin/env python3
 """Behaviour-preserving variants of /repo (refactorings a maintainer could make) must not raise any alarm:
 applies each /verif/benign/*.diff to a scratch copy, confirms build + 30 tests, runs every claimed check (quick)
-and reports checks that exit non-zero.   tools/benigntest.py [name-substring]"""
+and reports checks that exit non-zero.   tools/benigntest.py [name-substring] [--props C04,C05] [--notests]"""
 import glob, json, os, re, shutil, subprocess, sys, tempfile
 VERIF = os.path.dirname(os.path.dirname(os.path.abspath(__file__)))
 
 def main():
-    pat = sys.argv[1] if len(sys.argv) > 1 else ""
+    args = sys.argv[1:]
+    props = None; notests = False
+    if "--props" in args:
+        i = args.index("--props"); props = set(args[i + 1].split(",")); del args[i:i + 2]
+    if "--notests" in args:
+        args.remove("--notests"); notests = True
+    pat = args[0] if args else ""
     m = json.load(open(os.path.join(VERIF, "MANIFEST.json")))
     bad = 0
     for d in sorted(glob.glob(os.path.join(VERIF, "benign", "*.diff"))):
@@ -19,11 +25,16 @@ def main():
             p = subprocess.run("cd %s && patch -p1 -s < %s" % (repo, d), shell=True, capture_output=True, text=True)
             if p.returncode:
                 print("%s: PATCH DOES NOT APPLY" % os.path.basename(d)); bad += 1; continue
-            b = subprocess.run("make -s -C %s clean >/dev/null 2>&1; make -C %s check 2>&1" % (repo, repo), shell=True, capture_output=True, text=True)
-            ok = b.returncode == 0 and len(re.findall(r": ok", b.stdout)) >= 30
+            if notests:
+                ok = True
+            else:
+                b = subprocess.run("make -s -C %s clean >/dev/null 2>&1; make -C %s check 2>&1" % (repo, repo), shell=True, capture_output=True, text=True)
+                ok = b.returncode == 0 and len(re.findall(r": ok", b.stdout)) >= 30
             subprocess.run("make -s -C %s clean >/dev/null 2>&1" % repo, shell=True)
             alarms = []
             for c in m["checks"]:
+                if props is not None and c["property_id"] not in props:
+                    continue
                 env = dict(os.environ, VERIF_REPO=repo, VERIF_EVIDENCE_DIR=os.path.join(tmp, "ev"))
                 r = subprocess.run([sys.executable, "-m", "sa.check", c["property_id"], "--tier", "quick"], capture_output=True, text=True, cwd=VERIF, env=env)
                 if r.returncode:
